@@ -358,6 +358,9 @@ func hostileScen(c *Ctx) {
 		for i, o := range ops {
 			res := o.run(cl)
 			c.Res.Ops++
+			if s.Panicked {
+				return // the handler may have died holding the cache mutex
+			}
 			s.Settle()
 			s.Note("%d %s -> %s", i, o.name, res.Code)
 			site := o.name
@@ -409,6 +412,7 @@ func rawCall(cl *world.Client, f func() error) (res world.Res) {
 		if p := recover(); p != nil {
 			res.Panic = fmt.Sprint(p)
 			res.Code = "PANIC"
+			cl.S.Panicked = true
 			cl.S.Violate("C14.panic", "handler", "handler panicked: %v\n%s", p, world.PanicFrames())
 		}
 	}()
